@@ -25,6 +25,13 @@ import (
 
 const unit = time.Millisecond
 
+type parentKey struct{}
+
+// execError is what some executors return as their own error (together with a value): it must arrive unchanged
+type execError struct{ id int }
+
+func (e *execError) Error() string { return fmt.Sprintf("executor error of task %d", e.id) }
+
 type taskRec struct {
 	id       int
 	kind     string // do try exec tryexec
@@ -36,6 +43,7 @@ type taskRec struct {
 	execs    int32
 	released bool
 	sawCtx   context.Context
+	execErr  error
 	returned bool
 	accepted bool // Do returned, or TryDo returned true
 	tryRes   bool
@@ -72,6 +80,7 @@ type runState struct {
 	startStep    int // first step at which Start was issued (-1: never)
 	poolDoneStep int // first step at which the pool context was cancelled (stop / cancelparent issued); -1 = never
 	stopReturned bool
+	stopReturnedStep int // first observation at which a Stop call was seen returned (-1: not yet)
 	stopCalled   bool
 	poolDone     bool
 	maxRunning   int
@@ -154,6 +163,22 @@ func (r *runState) observe(step int) {
 	}
 	fmt.Fprintf(r.tr, "obs rets=[%s] tasks=[%s] workers=%d panics=%d\n", strings.Join(r.rets, ","), strings.Join(ts, ","), w, p)
 	if r.stopReturned {
+		if r.stopReturnedStep < 0 {
+			r.stopReturnedStep = step
+		}
+		if p > 0 {
+			r.fail("C08 a call panicked although Stop has returned (a later Start/Stop/submission must have no effect)")
+		}
+		for _, t := range r.tasks {
+			if t.submitAt > r.stopReturnedStep {
+				if atomic.LoadInt32(&t.execs) > 0 {
+					r.fail("C08 task %d was submitted after Stop had returned but was executed", t.id)
+				}
+				if t.returned && t.kind == "do" && t.nres() != 1 {
+					r.fail("C08 task %d was submitted after Stop had returned: Do returned without the context-error result", t.id)
+				}
+			}
+		}
 		if w != 0 {
 			r.fail("C08 Stop has returned but %d pool goroutine(s) are still alive", w)
 		}
@@ -181,8 +206,12 @@ func (r *runState) submit(kind, ctxKind string) {
 		atomic.AddInt32(&tr.execs, 1)
 		tr.sawCtx = ctx
 		<-tr.gate
+		if id%4 == 3 {
+			return id, tr.execErr // the executor's own error travels with its value
+		}
 		return id, nil
 	}
+	tr.execErr = &execError{id}
 	// three equivalent routes through the API, chosen by task id: NewTask+Do/TryDo, Execute*/TryExecute* with an explicit
 	// context argument (nil = the pool's), and (pool context only) plain Execute/TryExecute
 	route := id % 3
@@ -239,7 +268,7 @@ func (r *runState) submit(kind, ctxKind string) {
 
 func (r *runState) runScenario() {
 	sc := r.sc
-	parent, pcancel := context.WithCancel(context.Background())
+	parent, pcancel := context.WithCancel(context.WithValue(context.Background(), parentKey{}, "parent-of-this-pool"))
 	r.pcancel = pcancel
 	fmt.Fprintf(r.tr, "reset pool %d %d %d\n", sc.nworker, sc.limit, sc.lifetime)
 	lifetime := time.Duration(sc.lifetime) * unit
@@ -257,9 +286,20 @@ func (r *runState) runScenario() {
 		ExpandedLifetime: lifetime, DisableAutoStart: !sc.ctorStart})
 	r.poolDoneStep = -1
 	r.startStep = -1
+	r.stopReturnedStep = -1
 	for i, a := range sc.actions {
 		r.step = i
 		f := strings.Fields(a)
+		if f[0] == "stop" && r.stopCalled {
+			// a repeated Stop is only issued once the first one has returned ("further Stop calls afterwards have no effect");
+			// Stop calls concurrent with each other are outside C08's quantifier
+			r.mu.Lock()
+			ret := r.stopReturned
+			r.mu.Unlock()
+			if !ret {
+				continue
+			}
+		}
 		fmt.Fprintf(r.tr, "act %s\n", a)
 		switch f[0] {
 		case "do", "try":
@@ -365,7 +405,7 @@ func (r *runState) runScenario() {
 		}
 		select {
 		case res := <-t.task.Result():
-			if res.Err != nil {
+			if res.Err != nil && res.Err != t.execErr {
 				kind = "err"
 				if atomic.LoadInt32(&t.execs) != 0 {
 					r.fail("C04 task %d received a context-error result but was executed", t.id)
@@ -395,6 +435,17 @@ func (r *runState) runScenario() {
 				}
 				if t.ctxKind == "pool" && t.sawCtx == nil {
 					r.fail("C04 task %d without context was executed with a nil context instead of the pool's", t.id)
+				} else if t.ctxKind == "pool" {
+					// the pool's context: derived from the parent given to NewPool and done once Stop has been called
+					if !r.sc.nilParent && t.sawCtx.Value(parentKey{}) != "parent-of-this-pool" {
+						r.fail("C04 task %d was given no context but its executor did not run with the pool's context (it does not derive from the pool's parent)", t.id)
+					}
+					if t.sawCtx.Err() == nil {
+						r.fail("C04 task %d was given no context but its executor did not run with the pool's context (it is not done after Stop)", t.id)
+					}
+				}
+				if want := map[bool]error{true: t.execErr, false: nil}[t.id%4 == 3]; res.Err != want {
+					r.fail("C04 task %d: result carries error %v, its executor returned %v", t.id, res.Err, want)
 				}
 			}
 		default:
@@ -477,8 +528,8 @@ func genScenario(rng *rand.Rand) scenario {
 		case r < 82:
 			sc.actions = append(sc.actions, fmt.Sprintf("advance %d", []int{1, L - 1, L, L + 1, 2 * L}[rng.Intn(5)]))
 		case r < 90:
-			if !stopped {
-				sc.actions = append(sc.actions, "stop")
+			if !stopped || rng.Intn(3) == 0 {
+				sc.actions = append(sc.actions, "stop") // a repeated Stop must have no effect
 				stopped = true
 			}
 		default:
@@ -552,6 +603,10 @@ func TestStress(t *testing.T) {
 	for round := 0; time.Now().Before(deadline); round++ {
 		if round%3 == 2 {
 			crowdRound(mon, rng, round)
+			continue
+		}
+		if round%16 == 7 {
+			edgeRound(mon, rng, round)
 			continue
 		}
 		opt := workerpool.Option{NumberWorker: 1 + rng.Intn(3), ExpandableLimit: int32(rng.Intn(3)), ExpandedLifetime: time.Millisecond, DisableAutoStart: rng.Intn(4) == 0}
@@ -808,5 +863,88 @@ func crowdRound(mon *bufio.Writer, rng *rand.Rand, round int) {
 		fmt.Fprintf(mon, "MON %d FAIL %s\n", round, msg)
 	} else {
 		fmt.Fprintf(mon, "MON %d ok subs=%d\n", round, crowd+nw+1+pre)
+	}
+}
+
+// edgeRound: unusual arguments of the submission API (monitors only): a nil task is ignored (TryDo(nil) reports false), a task
+// without an executor is "executed" as a no-op and receives exactly one empty result, a nil executor given to Execute* likewise;
+// none of them panics or blocks, before or after Stop.
+func edgeRound(mon *bufio.Writer, rng *rand.Rand, round int) {
+	opt := workerpool.Option{NumberWorker: 1 + rng.Intn(2), ExpandableLimit: int32(rng.Intn(2)), ExpandedLifetime: time.Millisecond}
+	fmt.Fprintf(mon, "RUN %d round=%d edge opt=%+v\n", round, round, opt)
+	mon.Flush()
+	msg := ""
+	call := func(what string, f func()) {
+		done := make(chan interface{}, 1)
+		go func() {
+			defer func() { done <- recover() }()
+			f()
+		}()
+		select {
+		case p := <-done:
+			if p != nil && msg == "" {
+				msg = fmt.Sprintf("C12 %s panicked: %v", what, p)
+			}
+		case <-time.After(5 * time.Second):
+			if msg == "" {
+				msg = fmt.Sprintf("C17 %s did not return within 5s", what)
+			}
+		}
+	}
+	one := func(what string, t *workerpool.Task, wantErr bool) {
+		if t == nil {
+			if msg == "" {
+				msg = fmt.Sprintf("C04 %s returned no task", what)
+			}
+			return
+		}
+		select {
+		case res := <-t.Result():
+			if (res.Err != nil) != wantErr || res.Result != nil {
+				if msg == "" {
+					msg = fmt.Sprintf("C04 %s: result %+v (context error expected: %v)", what, *res, wantErr)
+				}
+			}
+		case <-time.After(5 * time.Second):
+			if msg == "" {
+				msg = fmt.Sprintf("C12 %s: the task never received a result", what)
+			}
+		}
+		select {
+		case res := <-t.Result():
+			if msg == "" {
+				msg = fmt.Sprintf("C04 %s: a second result arrived: %+v", what, *res)
+			}
+		default:
+		}
+	}
+	p := workerpool.NewPool(context.Background(), opt)
+	for phase := 0; phase < 2; phase++ {
+		stopped := phase == 1
+		tag := map[bool]string{false: "running pool", true: "stopped pool"}[stopped]
+		call("Do(nil) on a "+tag, func() { p.Do(nil) })
+		call("TryDo(nil) on a "+tag, func() {
+			if p.TryDo(nil) && msg == "" {
+				msg = "C17 TryDo(nil) reported that a task was handed over"
+			}
+		})
+		var t1, t2, t3 *workerpool.Task
+		call("Do of a task without executor on a "+tag, func() { t1 = workerpool.NewTask(nil, nil); p.Do(t1) })
+		one("Do of a task without executor on a "+tag, t1, stopped)
+		call("Execute(nil) on a "+tag, func() { t2 = p.Execute(nil) })
+		one("Execute(nil) on a "+tag, t2, stopped)
+		var ok bool
+		call("TryExecute(nil) on a "+tag, func() { t3, ok = p.TryExecute(nil) })
+		if ok || stopped {
+			one("TryExecute(nil) on a "+tag, t3, stopped)
+		}
+		if !stopped {
+			call("Stop", func() { p.Stop() })
+		}
+	}
+	if msg != "" {
+		fmt.Fprintf(mon, "MON %d FAIL %s\n", round, msg)
+	} else {
+		fmt.Fprintf(mon, "MON %d ok subs=%d\n", round, 10)
 	}
 }
